@@ -20,6 +20,7 @@ CONSTANTS
   TTLMode = "stored"
   Admit = "rule"
   Dedup = TRUE
+  RefreshOwner = "asked"
   Alias = "none"
   DumpFields = {"msgexp", "cacheexp"}
   Insts = {1, 2}
